@@ -807,6 +807,113 @@ theorem route_cache_irrelevant (svc : Service α) (eng : SpeedEngine α) (v : Ve
       congr 1
       exact Prod.ext e1.symm hcn
 
+/-! ## Configuration: what the builders put in force, and which vehicle a query gets -/
+
+/-- the library behaves like the `HashMap` it is: the last vehicle configured under a name wins … -/
+theorem libraryGet_append_hit {β : Type} (l : List (Nat × β)) (id : Nat) (v : β) :
+    libraryGet (l ++ [(id, v)]) id = some v := by
+  simp [libraryGet, List.foldl_append]
+
+/-- … and vehicles of other names do not matter -/
+theorem libraryGet_append_miss {β : Type} (l1 l2 : List (Nat × β)) (id : Nat)
+    (h : ∀ p ∈ l2, p.1 ≠ id) : libraryGet (l1 ++ l2) id = libraryGet l1 id := by
+  induction l2 generalizing l1 with
+  | nil => simp
+  | cons p r ih =>
+    have hp : p.1 ≠ id := h p List.mem_cons_self
+    have hr : ∀ q ∈ r, q.1 ≠ id := fun q hq => h q (List.mem_cons_of_mem _ hq)
+    have e : l1 ++ p :: r = (l1 ++ [p]) ++ r := by simp
+    rw [e, ih (l1 ++ [p]) hr]
+    simp [libraryGet, List.foldl_append, hp]
+
+/-- C08 (vehicle selection): a query whose `model_name` is missing, is not a string, or names no
+vehicle of the library gets a build error — never some other vehicle … -/
+theorem select_rejected (lib : List (Nat × Vehicle α)) (q : SocQuery α) :
+    selectVehicle lib .absent q = .error .build ∧ selectVehicle lib .nonString q = .error .build
+      ∧ ∀ id, libraryGet lib id = none → selectVehicle lib (.name id) q = .error .build := by
+  refine ⟨rfl, rfl, ?_⟩
+  intro id h
+  simp [selectVehicle, h]
+
+/-- … and a query that names a configured vehicle gets exactly that vehicle, updated from the query
+(so every theorem above applies to it with the configured capacity, unit, rates and adjustment) -/
+theorem select_named (lib : List (Nat × Vehicle α)) (q : SocQuery α) (id : Nat) (v : Vehicle α)
+    (h : libraryGet lib id = some v) : selectVehicle lib (.name id) q = v.updateFromQuery q := by
+  simp [selectVehicle, h]
+
+/-- a configured `ideal_energy_rate` and `real_world_energy_adjustment` are the ones in force; a
+missing adjustment is 1 -/
+theorem record_of_config (rate : α → α → α) (su : SpeedUnit) (gu : GradeUnit) (ru : EnergyRateUnit)
+    (sweep : List α) (x a : α) (io ao : Option α) :
+    (PredRecord.ofConfig rate su gu ru (some x) sweep ao).idealRate = x
+      ∧ (PredRecord.ofConfig rate su gu ru io sweep (some a)).adjustment = a
+      ∧ (PredRecord.ofConfig rate su gu ru io sweep none).adjustment = 1
+      ∧ (PredRecord.ofConfig rate su gu ru none sweep ao).idealRate = findMinEnergyRate sweep := by
+  refine ⟨rfl, rfl, ?_, rfl⟩
+  simp [PredRecord.ofConfig]
+
+/-- the swept ideal rate is a lower bound of every swept prediction -/
+theorem findMinEnergyRate_le (sweep : List α) : ∀ r ∈ sweep, findMinEnergyRate sweep ≤ r := by
+  have key : ∀ (l : List α) (m : α),
+      l.foldl (fun m r => if r < m then r else m) m ≤ m ∧
+        ∀ r ∈ l, l.foldl (fun m r => if r < m then r else m) m ≤ r := by
+    intro l
+    induction l with
+    | nil => intro m; exact ⟨le_refl _, by simp⟩
+    | cons a t ih =>
+      intro m
+      simp only [List.foldl_cons]
+      by_cases ham : a < m
+      · rw [if_pos ham]
+        obtain ⟨h1, h2⟩ := ih a
+        refine ⟨le_trans h1 (le_of_lt ham), ?_⟩
+        intro r hr
+        rcases List.mem_cons.mp hr with rfl | hr
+        · exact h1
+        · exact h2 r hr
+      · rw [if_neg ham]
+        obtain ⟨h1, h2⟩ := ih m
+        refine ⟨h1, ?_⟩
+        intro r hr
+        rcases List.mem_cons.mp hr with rfl | hr
+        · exact le_trans h1 (not_lt.mp ham)
+        · exact h2 r hr
+  intro r hr
+  exact (key sweep f64Max).2 r hr
+
+/-- a configured battery vehicle starts full (before any query), with the configured capacity and
+unit in force — so `bev_soc_step` etc. read `-100 · E[configured unit] / configured capacity` -/
+theorem battery_of_config (cap : α) (u : EnergyUnit) (hcap : cap ≠ 0) (r sus dep : PredRecord α) :
+    (Battery.ofConfig cap u).capacity = cap ∧ (Battery.ofConfig cap u).unit = u
+      ∧ (Vehicle.bev r (Battery.ofConfig cap u)).initialState.soc = 100
+      ∧ (Vehicle.phev sus dep (Battery.ofConfig cap u)).initialState.soc = 100 := by
+  have h : asSocPercent cap cap = (100 : α) := by
+    simp only [asSocPercent, hundred_eq, zero_eq, div_self hcap, one_mul]
+    exact clamp_of_mem (by norm_num) (le_refl _)
+  exact ⟨rfl, rfl, h, h⟩
+
+/-- units left out of the configuration default to the base units; the service's speed unit is the
+time model's -/
+theorem config_defaults (rows : List α) (su : SpeedUnit) (eng : SpeedEngine α) (m : α)
+    (h : SpeedEngine.ofConfig rows su none none = .ok (eng, m)) (gt : Option (List α)) (gu : GradeUnit) :
+    eng.distanceUnit = baseDistanceUnit ∧ eng.timeUnit = baseTimeUnit ∧ eng.speedUnit = su
+      ∧ (Service.ofConfig su gt gu none).distanceUnit = baseDistanceUnit
+      ∧ (Service.ofConfig su gt gu none).timeModelSpeedUnit = su := by
+  simp only [SpeedEngine.ofConfig] at h
+  split at h
+  · cases h
+  · split at h
+    · cases h
+    · cases h; exact ⟨rfl, rfl, rfl, rfl, rfl⟩
+
+/-- a speed table with a negative row does not build -/
+theorem negative_speed_rejected (rows : List α) (su : SpeedUnit) (du : Option DistanceUnit)
+    (tu : Option TimeUnit) (x : α) (hx : x ∈ rows) (hneg : x < 0) :
+    SpeedEngine.ofConfig rows su du tu = .error .build := by
+  have : rows.any (fun x => decide (x < (zero : α))) = true := by
+    rw [List.any_eq_true]; exact ⟨x, hx, by simpa using hneg⟩
+  simp only [SpeedEngine.ofConfig, loadSpeedTable, this, if_true]
+
 end
 
 /-! ## Where the code leaves the property: machine-checked witnesses (over ℚ) -/
